@@ -621,6 +621,39 @@ func runRecord(path string, seed int64, ntraces, steps, nblocks, ntx int, sum *t
 	sum.Rule = "random trees (main line, equal-height competitors, random fork points, shared transactions) and random call sequences incl. restarts on core.BlockChain; distinct = distinct (tree, scheme)"
 }
 
+// runScenario executes hand-written call sequences (the candidate findings of NOTES.md) and
+// records them like runRecord does.
+func runScenario(in, path string, sum *tl.Summary) {
+	var scs []struct {
+		Name   string `json:"name"`
+		Tree   Tree   `json:"tree"`
+		Scheme string `json:"scheme"`
+		Calls  []Act  `json:"calls"`
+	}
+	tl.ReadJSON(in, &scs)
+	tr := tl.NewTrace(path)
+	defer tr.Close()
+	for _, sc := range scs {
+		u := buildUniverse(sc.Tree)
+		n := newNode(u, sc.Scheme)
+		st0, _ := n.project()
+		st0.Ev, st0.Err = Events{Chain: []int{}, Head: []int{}, Rm: [][][2]int{}, Logs: [][][2]int{}}, "none"
+		tr.Emit(tl.M{"op": "reset", "tree": sc.Tree, "scheme": sc.Scheme, "st": st0})
+		for _, a := range sc.Calls {
+			ev, errc := n.apply(a)
+			got, _ := n.project()
+			got.Ev, got.Err = ev, errc
+			normalize(&got)
+			sum.Steps++
+			sum.Count(a.Op)
+			tr.Emit(tl.M{"op": a.Op, "seg": orEmpty(a.Seg), "b": a.B, "n": a.N, "st": got})
+		}
+		sum.Evaluations++
+		sum.Traces++
+		n.close()
+	}
+}
+
 func contains(s []int, x int) bool {
 	for _, y := range s {
 		if y == x {
@@ -638,7 +671,7 @@ func orEmpty(s []int) []int {
 }
 
 func main() {
-	mode := flag.String("mode", "replay", "replay|record")
+	mode := flag.String("mode", "replay", "replay|record|scenario")
 	in := flag.String("in", "", "behaviours (JSON array) for replay")
 	trace := flag.String("trace", "", "ndjson trace output (record)")
 	out := flag.String("out", "", "summary output")
@@ -654,6 +687,8 @@ func main() {
 		runReplay(*in, sum)
 	case "record":
 		runRecord(*trace, seed, *ntr, *steps, *nblocks, *ntx, sum)
+	case "scenario":
+		runScenario(*in, *trace, sum)
 	default:
 		tl.Fatal("unknown mode %s", *mode)
 	}
